@@ -134,6 +134,25 @@ def dist_program(asm, case):
     return items
 
 
+def abs_target_program(rng):
+    """a transfer to an absolute address (a constant in the target position) next to an RVC / near-call reach edge as seen from the
+    pessimistic position of the transfer.  The 32-bit form reaches the address from every position between 0 and that one, so however
+    much the code in front shrinks under -c there is an encoding: a refusal under -c is a decision taken too early, not a necessity"""
+    pre = [{'k': 'label', 'name': 'S'}] + movers(rng, rng.randint(1, 10))
+    pess = sum(randprog.pess_size(it) for it in pre)
+    kind = rng.choice(['jal1', 'jal0', 'j', 'jalp', 'beq', 'bne', 'beqz', 'bnez', 'call', 'tail'])
+    edge = {'beq': 254, 'bne': 254, 'beqz': 254, 'bnez': 254, 'call': (1 << 20) - 2, 'tail': (1 << 20) - 2}.get(kind, 2046)
+    T = pess + edge + rng.choice([-6, -4, -2, 0, 2, 4, 6, 8, 12, 16, 24, 40])
+    r = {'r': rng.randrange(8, 16)}
+    t = {'t': 'TABS'}
+    x = {'jal1': {'k': 'inst', 'm': 'jal', 'ops': [{'r': 1}, t]}, 'jal0': {'k': 'inst', 'm': 'jal', 'ops': [{'r': 0}, t]},
+         'j': {'k': 'pseudo', 'm': 'j', 'ops': [t]}, 'jalp': {'k': 'pseudo', 'm': 'jal', 'ops': [t]},
+         'beq': {'k': 'inst', 'm': 'beq', 'ops': [r, {'r': 0}, t]}, 'bne': {'k': 'inst', 'm': 'bne', 'ops': [r, {'r': 0}, t]},
+         'beqz': {'k': 'pseudo', 'm': 'beqz', 'ops': [r, t]}, 'bnez': {'k': 'pseudo', 'm': 'bnez', 'ops': [r, t]},
+         'call': {'k': 'pseudo', 'm': 'call', 'ops': [t]}, 'tail': {'k': 'pseudo', 'm': 'tail', 'ops': [t]}}[kind]
+    return [{'k': 'const', 'name': 'TABS', 'value': T, 'text': rng.choice([str, hex])(T)}] + pre + [x, {'k': 'pseudo', 'm': 'ret', 'ops': []}]
+
+
 def make(case, asm=None):
     rng = random.Random('c12-%s-%d-%d' % (case['kind'], case['seed'], case['idx']))
     if case['kind'] == 'dist':
@@ -144,6 +163,8 @@ def make(case, asm=None):
             items = randprog.constify(rng, items, 0.3)
     elif case['kind'] == 'shift':
         items = shift_const_program(rng)
+    elif case['kind'] == 'abs':
+        items = abs_target_program(rng)
     else:
         items = randprog.gen(rng, CFGS[case['idx'] % len(CFGS)])
         items = randprog.constify(rng, items, rng.choice([0.15, 0.4, 0.7]))
@@ -206,7 +227,7 @@ def run_shard(sh, deadline):
 
 
 def plan(tier, seed):
-    n = {'rand': 3000, 'edge': 2500, 'shift': 500, 'dist': 1200} if tier == 'quick' else {'rand': 120000, 'edge': 70000, 'shift': 10000, 'dist': 24000}
+    n = {'rand': 3000, 'edge': 2500, 'shift': 500, 'dist': 1200, 'abs': 1500} if tier == 'quick' else {'rand': 120000, 'edge': 70000, 'shift': 10000, 'dist': 24000, 'abs': 60000}
     cases = [{'kind': k, 'seed': seed, 'idx': i} for k, cnt in n.items() for i in range(cnt)]
     nsh = 64 if tier == 'quick' else 512
     shards = [{'cases': cases[i::nsh]} for i in range(nsh)]
@@ -219,7 +240,7 @@ def gates(acc, tier):
         g.append('only %d of %d generated programs assemble without compression' % (acc['ctr']['accepted_uncompressed'], acc['n']))
     if acc['ctr']['compression_happened'] == 0 and not acc['nviol']:
         g.append('compression never shortened a program: the compress flag had no observable effect')
-    if len(acc['seen'].get('families', ())) < 3:
+    if len(acc['seen'].get('families', ())) < 5:
         g.append('program families missing')
     return g
 
